@@ -143,13 +143,16 @@ func stdEntries(r *rng.R, sec string, max int) (hdr *ach.BatchHeader, out []*ach
 	return bh, es
 }
 
-func iatSource(r *rng.R, max int, clean bool) (out ach.IATBatch) {
+func iatSource(r *rng.R, max int, clean bool, forwardOnly ...bool) (out ach.IATBatch) {
 	seed := r.U64()
 	ok, d := safely(func() {
 		g := rng.New(seed)
 		o := gen.Opts{MaxEntries: max, Addenda: true, ForwardOnly: true}
 		if !clean && g.Chance(1, 4) {
 			o = gen.Opts{MaxEntries: max, Addenda: true, Returns: true, NOC: true}
+		} else if clean && len(forwardOnly) == 0 && g.Chance(1, 2) {
+			// notification-of-change batches (IATCOR): the entries carry an Addenda98 and none of the seven mandatory addenda
+			o = gen.Opts{MaxEntries: max, Addenda: true, NOC: true}
 		}
 		out = gen.IATBatch(g, odfiDefault, 1, o)
 	})
@@ -395,8 +398,8 @@ func iatEntryFor(r *rng.R, e *ach.IATEntryDetail, mode string, i int, clean bool
 	return e
 }
 
-func newIAT(r *rng.R, num int, max int, clean bool) ach.IATBatch {
-	src := iatSource(r.Fork(), max, clean)
+func newIAT(r *rng.R, num int, max int, clean bool, forwardOnly ...bool) ach.IATBatch {
+	src := iatSource(r.Fork(), max, clean, forwardOnly...)
 	h := *src.GetHeader()
 	h.BatchNumber = num
 	nb := ach.NewIATBatch(&h)
@@ -546,9 +549,9 @@ func build(c caseSpec) *world {
 		}
 	case "iat-hash-overflow":
 		for k := 0; k < 2; k++ {
-			nb := newIAT(r, 0, 1, true)
+			nb := newIAT(r, 0, 1, true, true)
 			for len(nb.Entries) < 130 {
-				src := iatSource(r.Fork(), 4, true)
+				src := iatSource(r.Fork(), 4, true, true)
 				for _, e := range src.GetEntries() {
 					e.SetRDFI(bigRDFI)
 					e.TraceNumber = ""
@@ -641,7 +644,10 @@ func (w *world) drawOp(k, total int) op {
 		case 4:
 			if nI > 0 {
 				i := r.Intn(nI)
-				src := iatSource(r.Fork(), 1, true)
+				if clean && f.IATBatches[i].Header.StandardEntryClassCode == ach.COR {
+					continue // a forward entry does not belong in a notification-of-change batch
+				}
+				src := iatSource(r.Fork(), 1, true, true)
 				mode := "empty"
 				if !clean {
 					mode = rng.Pick(r, []string{"empty", "empty", "keep", "foreign", "short"})
